@@ -33,6 +33,10 @@ trait Rep3<T: Tier>: Copy + Send + Sync {
     fn structure_ok(self) -> bool {
         true
     }
+    /// largest deviation of the homogeneous part from the identity's (for results that went through a division)
+    fn structure_dev(self) -> f64 {
+        0.0
+    }
 }
 impl<T: Tier> Rep3<T> for Matrix3<T> {
     const NAME: &'static str = "Matrix3";
@@ -95,6 +99,10 @@ impl<T: Tier> Rep3<T> for Matrix4<T> {
         let a = m4(self);
         let (z, o) = (T::zero(), T::one());
         a[0][3] == z && a[1][3] == z && a[2][3] == z && a[3][0] == z && a[3][1] == z && a[3][2] == z && a[3][3] == o
+    }
+    fn structure_dev(self) -> f64 {
+        let a = m4(self);
+        [a[0][3].f(), a[1][3].f(), a[2][3].f(), a[3][0].f(), a[3][1].f(), a[3][2].f(), a[3][3].f() - 1.0].iter().fold(0.0f64, |m, x| if x.is_nan() { f64::INFINITY } else { m.max(x.abs()) })
     }
 }
 impl<T: Tier> Rep3<T> for Basis3<T> {
@@ -202,7 +210,10 @@ fn judge<T: Tier, R: Rep3<T>>(ctx: &mut Ctx, ax: [T; 3], ang: Rad<T>, cs: (T::M,
     // angles add under composition about a common axis; r * invert(r) = one()
     let rr = r.mul(r);
     eq_mc::<T, 3>(ctx, &key(&format!("compose/{name}/angles-add")), rr.mat(), model::axis_angle_mat(max, cs2), slack * 2.0);
+    ctx.check(rr.structure_ok(), &key(&format!("compose/{name}/homogeneous-part")), || "r*r: fourth row/column is not that of the identity".to_string());
     let e = r.mul(r.inv());
+    let dev = r.inv().structure_dev().max(e.structure_dev());
+    ctx.check(dev <= if T::EXACT { 0.0 } else { 64.0 * T::U }, &key(&format!("compose/{name}/homogeneous-part")), || format!("invert(r) or r*invert(r): fourth row/column deviates from the identity's by {dev:e}"));
     let idw: [[T::M; 3]; 3] = std::array::from_fn(|c| std::array::from_fn(|r| id[c][r].with_abs_err(8.0)));
     eq_mc::<T, 3>(ctx, &key(&format!("compose/{name}/r*invert(r)=one")), e.mat(), idw, slack);
     if T::EXACT {
@@ -283,6 +294,22 @@ fn exact(rep: &mut Report) {
 fn floats<T: Tier + Dom<M = Sh>>(rep: &mut Report) {
     let axes = alphabet::uv3(true);
     let mut rads: Vec<f64> = vec![0.0, 1e-8, -1e-8, PI / 2.0, -PI / 2.0, PI, -PI, 1e3];
+    // a ladder of small angles (a small-angle shortcut), neighbourhoods of the quarter, half and full turn, and angles
+    // of many turns (an argument reduction by a rounded full turn): sin and cos are the real functions of the measure
+    for k in 1..=7 {
+        rads.push(10f64.powi(-k) * 3.0);
+        rads.push(-(10f64.powi(-k)));
+    }
+    for c in [PI / 2.0, PI, 2.0 * PI] {
+        for d in [1e-4, -1e-4, 1e-2] {
+            rads.push(c + d);
+            rads.push(-c + d);
+        }
+    }
+    rads.extend([1e4, -1e4, 1e5, 123456.7]);
+    if T::NAME == "D" {
+        rads.extend([1e6, -1e7, 1e9]);
+    }
     let jmax = rep.pick(20, 100);
     for j in 1..=jmax {
         rads.push(0.37 * j as f64 * 20.0 / jmax as f64);
